@@ -4,6 +4,7 @@ import (
 	"fmt"
 	"go/token"
 	"go/types"
+	"sort"
 	"strings"
 
 	"golang.org/x/tools/go/ssa"
@@ -126,22 +127,7 @@ func c18(r *Report) {
 	}
 
 	r.Guard("C18.R1", "a configuration is validated completely before any listener state changes, and the change is made as a whole under the write lock", func() {
-		// reconfiguration leaves established connections alone: the handler closes no
-		// bucket it did not create itself in this call (the buckets of the replaced
-		// shapes are still in use by connections accepted earlier)
-		for _, f := range r.W.staticReach(sh) {
-			if fnName(f) == "(*M/trafficshape.Conn).Close" || fnName(f) == "(*M/trafficshape.Bucket).Close" {
-				continue
-			}
-			for _, c := range calls(f, "(*M/trafficshape.Bucket).Close") {
-				fresh := anyIn(w.backSlice(c.Common().Args[0], flowOpt{}), func(v ssa.Value) bool { return isCallValue(v, "M/trafficshape.NewBucket") })
-				live := anyIn(w.backSlice(c.Common().Args[0], flowOpt{}), func(v ssa.Value) bool {
-					fa, ok := v.(*ssa.FieldAddr)
-					return ok && (fieldObj(fa).Name() == "Shapes" || fieldObj(fa).Name() == "M")
-				})
-				r.Decide("flow", "reconfiguration closes no bucket in use: "+site(f, c), fresh && !live, "only a bucket made in this call is closed", "the reconfiguration path closes a bucket reached through the listener's current shapes: connections accepted before the change still write through it and their next shaped response fails", c.Pos())
-			}
-		}
+		reconfigClosesNoBucketRule(r)
 
 		g := G(sh)
 		var muts []ssa.Instruction
@@ -1038,6 +1024,87 @@ func c18(r *Report) {
 		r.Decide("path", "(*M.Proxy).handle: a response that starts inside a throttle is throttled from its first byte", okTN, "WriteBucket.SetCapacity(ThrottleContext.Bandwidth) on the ThrottleNow edge", "the bucket keeps its previous capacity when the response starts inside a throttled range: that throttle adds no delay", lit.Pos())
 	})
 
+	r.Guard("C18.R6", "a body that reaches the shaped connection through ReadFrom is shaped like one that is written", func() {
+		// bufio.Writer hands everything after its first buffer to the underlying writer's ReadFrom:
+		// while a shaping context is active, ReadFrom must go through Write (which counts bytes and
+		// performs the actions), never straight to the connection
+		rf := w.Fn("trafficshape", "Conn.ReadFrom")
+		if rf == nil || rf.Blocks == nil {
+			r.Undecided("M/trafficshape.Conn.ReadFrom", "UNRESOLVED")
+			return
+		}
+		r.Touch(rf)
+		g := G(rf)
+		isRaw := func(i ssa.Instruction) bool {
+			c, ok := i.(ssa.CallInstruction)
+			if !ok {
+				return false
+			}
+			switch calleeName(c) {
+			case "(*M/trafficshape.Bucket).FillThrottle", "(*M/trafficshape.Bucket).FillThrottleLocked", "(*M/trafficshape.Bucket).Fill":
+				return true
+			}
+			return false
+		}
+		okShaped, nTests := true, 0
+		for _, in := range instrs(rf) {
+			iff, isIf := in.(*ssa.If)
+			if !isIf {
+				continue
+			}
+			cond := iff.Cond
+			ld, isLd := cond.(*ssa.UnOp)
+			if !isLd || ld.Op != token.MUL {
+				continue
+			}
+			fa, isFa := ld.X.(*ssa.FieldAddr)
+			if !isFa || fieldObj(fa).Name() != "Shaping" {
+				continue
+			}
+			nTests++
+			if p := g.PathTo(blockStart(iff.Block().Succs[0]), true, nil, isRaw); p != nil {
+				okShaped = false
+			}
+			// the shaped branch writes through Write: an io.Copy whose destination is not the bare
+			// connection field
+			viaWrite := false
+			for _, c := range calls(rf, "io.Copy", "io.CopyBuffer") {
+				if blockDominates(iff.Block().Succs[0], c.Block()) {
+					viaWrite = true
+					for v := range w.backSlice(c.Common().Args[0], flowOpt{}) {
+						if f2, isF2 := v.(*ssa.FieldAddr); isF2 && fieldObj(f2).Name() == "conn" {
+							viaWrite = false
+						}
+					}
+				}
+			}
+			for _, c := range calls(rf, "(*M/trafficshape.Conn).Write") {
+				if blockDominates(iff.Block().Succs[0], c.Block()) {
+					viaWrite = true
+				}
+			}
+			if !viaWrite {
+				okShaped = false
+			}
+		}
+		// every way to the raw copy passes the Shaping test
+		isTest := func(i ssa.Instruction) bool {
+			ld, isLd := i.(*ssa.UnOp)
+			if !isLd || ld.Op != token.MUL {
+				return false
+			}
+			fa, isFa := ld.X.(*ssa.FieldAddr)
+			if !isFa {
+				return false
+			}
+			// (a nil Context is "not shaping": the nil edge of `c.Context != nil` is passed without
+			// the Shaping load, which the true edge cannot be)
+			return fieldObj(fa).Name() == "Shaping" || fieldObj(fa).Name() == "Context"
+		}
+		untested := g.PathTo([]ssa.Instruction{g.Entry()}, true, isTest, isRaw)
+		r.Decide("path", "(*M/trafficshape.Conn).ReadFrom sends a response that is being shaped through Write", nTests >= 1 && okShaped && untested == nil, "the copy past the buckets is reached only when Context.Shaping is false; otherwise the data goes through Write", "ReadFrom copies to the connection under the default read bucket whatever the shaping context says: everything after the first buffer of a response body (bufio.Writer delegates to ReadFrom) is neither throttled nor counted, and a close or halt configured beyond that offset never fires", rf.Pos())
+	})
+
 	r.Guard("C18.R6", "a close action stops the write: the error returned is ErrForceClose and nothing more is written", func() {
 		g := G(wr)
 		ok := false
@@ -1427,6 +1494,49 @@ func c18(r *Report) {
 		r.Decide("table", "M/trafficshape.Conn.GetNextActionFromByte: the look-up starts at the index the search found", okInd, "nextActionFromIndex(actions, ind) with ind the search result", "the index handed on is not the search result (it is adjusted on some path): of several actions at one offset only some run", fn.Pos())
 	})
 
+	r.Guard("C18.R1", "a connection looks its shape up only after checking that the shape table is the one it was accepted under", func() {
+		// every look-up in the shape table by a connection is preceded by CheckExistenceAndValidity
+		// (which compares the table's time stamp with the connection's): a configuration installed
+		// later never shapes an earlier connection
+		for _, mn := range []string{"Conn.GetCurrentThrottle", "Conn.GetNextActionFromByte", "Conn.GetNextActionFromIndex"} {
+			f := w.Fn("trafficshape", mn)
+			if f == nil || f.Blocks == nil {
+				r.Undecided("M/trafficshape."+mn, "UNRESOLVED")
+				continue
+			}
+			r.Touch(f)
+			g := G(f)
+			isCheck := func(i ssa.Instruction) bool {
+				_, y := isCall(i, "(*M/trafficshape.Conn).CheckExistenceAndValidity")
+				return y
+			}
+			isLook := func(i ssa.Instruction) bool {
+				lk, ok := i.(*ssa.Lookup)
+				if !ok {
+					return false
+				}
+				_, isMap := lk.X.Type().Underlying().(*types.Map)
+				return isMap && strings.Contains(lk.X.Type().String(), "trafficshape.")
+			}
+			p := g.PathTo([]ssa.Instruction{g.Entry()}, true, isCheck, isLook)
+			r.Decide("path", "(*M/trafficshape."+mn+"): the shape table is looked into only after the validity check", p == nil, "CheckExistenceAndValidity lies on every path to a look-up in Shapes.M", "the connection reads its shape from the table without checking that the table is older than the connection: after a reconfiguration that names the same URL pattern, a connection accepted before it is shaped by the new configuration", f.Pos())
+		}
+		// a reconfiguration installs the shapes it parsed, untouched: the handler writes no field of a
+		// Shape (carrying a bucket over from the previous table keeps the old bandwidth in force)
+		nst := 0
+		for _, in := range instrs(sh) {
+			if st, isSt := in.(*ssa.Store); isSt {
+				if fa, isFa := st.Addr.(*ssa.FieldAddr); isFa && namedOf(fa.X.Type()) == "Shape" {
+					nst++
+					r.Fail("flow", "(*M/trafficshape.Handler).ServeHTTP writes Shape."+fieldObj(fa).Name(), "the handler changes a field of a parsed shape before installing it (a bucket taken over from the shape it replaces): what the accepted configuration says about that shape does not take effect", nil, st.Pos())
+				}
+			}
+		}
+		if nst == 0 {
+			r.Hold("flow", "(*M/trafficshape.Handler).ServeHTTP installs the parsed shapes as they are", "no store to a Shape field in the handler")
+		}
+	})
+
 	r.Guard("C18.R5", "a throttle covers the bytes from its start up to, not including, its end", func() {
 		fn := w.Fn("trafficshape", "Conn.GetCurrentThrottle")
 		if fn == nil || fn.Blocks == nil {
@@ -1622,6 +1732,7 @@ func c18(r *Report) {
 
 	r.Guard("C18.R7", "buckets created for a connection or a shape are closed when it goes away", func() {
 		shapedCloseNeverWaitsRule(r)
+		shapedCloseOwnBucketsRule(r)
 		// the configured latency is slept once, before a connection's first read and first
 		// write, on every path that leads to I/O
 		if ct := w.Named("trafficshape", "Conn"); ct != nil {
@@ -2051,6 +2162,33 @@ func bucketDrainRule(r *Report) {
 // twice deadlocks as soon as a writer waits in between.
 func noReentrantLockRule(r *Report, rel string) {
 	w := r.W
+	// a call through a stream-processor interface may end in any relay method (the default
+	// processor hands it to the peer relay, which locks): none is made with a lock held
+	if rel == "h2" {
+		for _, f := range w.Funcs(rel) {
+			may := lockStatesMay(f)
+			for _, c := range calls(f) {
+				cc := c.Common()
+				if !cc.IsInvoke() || len(may[c]) == 0 {
+					continue
+				}
+				switch cc.Method.Name() {
+				case "Data", "Header", "Priority", "RSTStream", "PushPromise":
+				default:
+					continue
+				}
+				if !strings.Contains(cc.Value.Type().String(), "Processor") {
+					continue
+				}
+				var held []string
+				for k := range may[c] {
+					held = append(held, k)
+				}
+				sort.Strings(held)
+				r.Fail("lockset", fmt.Sprintf("%s: %s is called with %v held", fnName(f), site(f, c), held), "a stream processor is invoked while a relay mutex is held: the processor chain ends in a relay method that takes the same (or the peer's) mutex - the reader deadlocks itself and the session never ends", nil, c.Pos())
+			}
+		}
+	}
 	for _, f := range w.Funcs(rel) {
 		may := lockStatesMay(f)
 		for _, c := range plainCalls(f) {
@@ -2082,4 +2220,98 @@ func noReentrantLockRule(r *Report, rel string) {
 			r.Decide("lockset", fmt.Sprintf("%s calls %s without holding a lock the callee takes", fnName(f), fnName(callee)), bad == "", "no overlap between held locks and the callee's acquisitions", "the caller holds "+bad+" and the callee locks it again: sync.RWMutex read locks are not reentrant, a waiting writer (reconfiguration) makes this deadlock", c.Pos())
 		}
 	}
+}
+
+// reconfigClosesNoBucketRule: see the comment in the body. Shared by C18.R1
+// and C01.R1 (an established keep-alive connection keeps delivering complete
+// responses across a reconfiguration).
+func reconfigClosesNoBucketRule(r *Report) {
+	w := r.W
+	sh := w.Fn("trafficshape", "Handler.ServeHTTP")
+	if sh == nil || sh.Blocks == nil {
+		r.Undecided("M/trafficshape.Handler.ServeHTTP", "UNRESOLVED")
+		return
+	}
+	r.Touch(sh)
+	// reconfiguration leaves established connections alone: the handler closes no
+	// bucket it did not create itself in this call (the buckets of the replaced
+	// shapes are still in use by connections accepted earlier)
+	for _, f := range r.W.staticReach(sh) {
+		if fnName(f) == "(*M/trafficshape.Conn).Close" || fnName(f) == "(*M/trafficshape.Bucket).Close" {
+			continue
+		}
+		for _, c := range calls(f, "(*M/trafficshape.Bucket).Close") {
+			fresh := anyIn(w.backSlice(c.Common().Args[0], flowOpt{}), func(v ssa.Value) bool { return isCallValue(v, "M/trafficshape.NewBucket") })
+			live := anyIn(w.backSlice(c.Common().Args[0], flowOpt{}), func(v ssa.Value) bool {
+				fa, ok := v.(*ssa.FieldAddr)
+				return ok && (fieldObj(fa).Name() == "Shapes" || fieldObj(fa).Name() == "M")
+			})
+			r.Decide("flow", "reconfiguration closes no bucket in use: "+site(f, c), fresh && !live, "only a bucket made in this call is closed", "the reconfiguration path closes a bucket reached through the listener's current shapes: connections accepted before the change still write through it and their next shaped response fails", c.Pos())
+		}
+	}
+
+}
+
+// shapedCloseOwnBucketsRule: closing one shaped connection closes the buckets
+// made for that connection (LocalBuckets) and nothing shared: the listener's
+// read/write buckets and the per-shape global buckets serve every connection
+// of the listener, and closing them under another connection's exchange cuts
+// that exchange's response. Shared by C18.R7 and C07.R2.
+func shapedCloseOwnBucketsRule(r *Report) {
+	w := r.W
+	cl := w.Fn("trafficshape", "Conn.Close")
+	if cl == nil || cl.Blocks == nil {
+		r.Undecided("M/trafficshape.Conn.Close", "UNRESOLVED")
+		return
+	}
+	r.Touch(cl)
+	n, shared := 0, ""
+	for _, c := range calls(cl, "(*M/trafficshape.Bucket).Close") {
+		n++
+		local := false
+		var origin func(v ssa.Value, depth int)
+		origin = func(v ssa.Value, depth int) {
+			if depth > 8 {
+				return
+			}
+			switch x := v.(type) {
+			case *ssa.UnOp:
+				origin(x.X, depth+1)
+			case *ssa.FieldAddr:
+				switch fieldObj(x).Name() {
+				case "LocalBuckets":
+					local = true
+				case "GlobalBuckets", "GlobalBucket":
+					shared = fieldObj(x).Name()
+				}
+				origin(x.X, depth+1)
+			case *ssa.Field:
+				origin(x.X, depth+1)
+			case *ssa.Extract:
+				origin(x.Tuple, depth+1)
+			case *ssa.Next:
+				origin(x.Iter, depth+1)
+			case *ssa.Range:
+				origin(x.X, depth+1)
+			case *ssa.Lookup:
+				origin(x.X, depth+1)
+			case *ssa.IndexAddr:
+				origin(x.X, depth+1)
+			case *ssa.Phi:
+				for _, e := range x.Edges {
+					origin(e, depth+1)
+				}
+			}
+		}
+		origin(c.Common().Args[0], 0)
+		if !local && shared == "" {
+			// c.ReadBucket / c.WriteBucket directly: the listener's
+			if ld, isLd := c.Common().Args[0].(*ssa.UnOp); isLd {
+				if fa, isFa := ld.X.(*ssa.FieldAddr); isFa && len(cl.Params) > 0 && isParamVal(fa.X, cl.Params[0]) {
+					shared = fieldObj(fa).Name()
+				}
+			}
+		}
+	}
+	r.Decide("flow", "(*M/trafficshape.Conn).Close closes the connection's own buckets only", shared == "", fmt.Sprintf("%d Bucket.Close call(s), all on LocalBuckets entries", n), "Close also closes "+shared+", which other connections of the listener write through: an exchange in flight on another connection (parked in a modifier during shutdown, say) gets its response head and then no body", cl.Pos())
 }
